@@ -717,6 +717,8 @@ _RET_RECORD: T.Dict[str, str] = {}             # function name -> record class i
 _TABLES: T.Dict[str, ast.Dict] = {}            # module-level NAME = {const: const, ...}, assigned once
 _CONSTS: T.Dict[str, ast.Constant] = {}        # module-level NAME = <literal>, assigned once
 _CLASS_CONSTS: T.Dict[str, ast.Constant] = {}  # class-level NAME = <literal>, unique over the classes of the modules
+_SENTINELS: T.Set[str] = set()                 # module-level NAME = object(), assigned once, only ever used as a default argument / identity comparand
+_KEEP: T.List[T.Any] = []                      # synthetic function nodes registered in _OWNER (identified by id(): kept alive)
 
 
 def _collect_constants(m: T.Any) -> None:
@@ -746,13 +748,60 @@ def _collect_constants(m: T.Any) -> None:
                 else:
                     _TABLES.pop(tgt, None)
     scan(m.tree.body, _CONSTS)
-    for n in ast.walk(m.tree):
-        if isinstance(n, (ast.FunctionDef, ast.AsyncFunctionDef)):
-            for x in ast.walk(n):
-                if isinstance(x, ast.Name) and isinstance(x.ctx, ast.Store):
-                    pass
+    _collect_sentinels(m)
     for q, c in m.classes().items():
         scan(c.body, _CLASS_CONSTS)
+
+
+def _collect_sentinels(m: T.Any) -> None:
+    """`NAME = object()` at module level, bound once, whose every read is the default of a pop/get/getattr/next call or an
+    operand of `is` / `is not`: a private "absent" marker that no container can hold (catalogue A6 with a sentinel default)."""
+    cand: T.Dict[str, int] = {}
+    for st in m.tree.body:
+        tgt = val = None
+        if isinstance(st, ast.Assign) and len(st.targets) == 1 and isinstance(st.targets[0], ast.Name):
+            tgt, val = st.targets[0].id, st.value
+        elif isinstance(st, ast.AnnAssign) and isinstance(st.target, ast.Name) and st.value is not None:
+            tgt, val = st.target.id, st.value
+        if tgt is not None and isinstance(val, ast.Call) and isinstance(val.func, ast.Name) and val.func.id == 'object' and not val.args and not val.keywords:
+            cand[tgt] = 0
+    if not cand:
+        return
+    ok_use: T.Set[int] = set()
+    for n in ast.walk(m.tree):
+        if isinstance(n, ast.Compare) and len(n.ops) == 1 and isinstance(n.ops[0], (ast.Is, ast.IsNot)):
+            ok_use.update(id(x) for x in (n.left, n.comparators[0]) if isinstance(x, ast.Name))
+        elif isinstance(n, ast.Call) and not n.keywords:
+            f = n.func
+            name = f.attr if isinstance(f, ast.Attribute) else (f.id if isinstance(f, ast.Name) else '')
+            pos = {'pop': 1, 'get': 1, 'next': 1, 'getattr': 2}.get(name)
+            if pos is not None and len(n.args) == pos + 1 and isinstance(n.args[pos], ast.Name):
+                ok_use.add(id(n.args[pos]))
+    bad: T.Set[str] = set()
+    for n in ast.walk(m.tree):
+        if isinstance(n, ast.Name) and n.id in cand:
+            if isinstance(n.ctx, ast.Store):
+                cand[n.id] += 1
+            elif id(n) not in ok_use:
+                bad.add(n.id)
+    _SENTINELS.update(k for k, stores in cand.items() if stores == 1 and k not in bad)
+
+
+def _sentinel_lookup(e: T.Any) -> T.Optional[T.Tuple[ast.AST, ast.AST, str]]:
+    """(M, k, sentinel name) for `M.pop(k, S)` / `M.get(k, S)` with S a private sentinel"""
+    if isinstance(e, ast.Call) and isinstance(e.func, ast.Attribute) and e.func.attr in ('pop', 'get') and len(e.args) == 2 and not e.keywords \
+            and isinstance(e.args[1], ast.Name) and e.args[1].id in _SENTINELS:
+        return e.func.value, e.args[0], e.args[1].id
+    return None
+
+
+def strip_sentinel(e: ast.AST) -> ast.AST:
+    """`M.pop(k, S)` read where k is known to be present: the default is never used, it is `M.pop(k)`"""
+    g = _sentinel_lookup(e)
+    if g is None:
+        return e
+    assert isinstance(e, ast.Call)
+    return ast.Call(func=e.func, args=[e.args[0]], keywords=[])
 
 
 def set_signatures(*mods: T.Any) -> None:
@@ -773,6 +822,8 @@ def set_signatures(*mods: T.Any) -> None:
     _RECORDS.clear()
     _RET_RECORD.clear()
     _DICT_NAMES.clear()
+    _SENTINELS.clear()
+    _KEEP.clear()
     for m in mods:
         for q, c in m.classes().items():
             if '.' in q or '#' in q:
@@ -836,6 +887,12 @@ def _table_get(e: T.Any) -> T.Optional[T.Tuple[ast.AST, ast.AST]]:
 
 def _canon_get(e: T.Any) -> T.Any:
     """on a table without None values: `M.get(k) is None` is `k not in M`; where `M.get(k)` is subscripted or searched it is `M[k]`"""
+    if isinstance(e, ast.Compare) and len(e.ops) == 1 and isinstance(e.ops[0], (ast.Is, ast.IsNot)) and _SENTINELS:
+        # `M.pop(k, S) is S` / `M.get(k, S) is S` with a private sentinel S  ->  `k not in M`
+        for look, other in ((e.left, e.comparators[0]), (e.comparators[0], e.left)):
+            sl = _sentinel_lookup(look)
+            if sl is not None and isinstance(other, ast.Name) and other.id == sl[2]:
+                return ast.Compare(left=sl[1], ops=[ast.NotIn() if isinstance(e.ops[0], ast.Is) else ast.In()], comparators=[sl[0]])
     if isinstance(e, ast.Compare) and len(e.ops) == 1:
         g = _table_get(e.left)
         c0 = e.comparators[0]
@@ -1311,11 +1368,13 @@ def is_free(a: Atom) -> bool:
 
 def compare(ctx: T.Any, mod: T.Any, qn: str, fn: ast.AST, tab: tables.Table, sem: T.Dict[Atom, str],
             view: T.Callable[[T.Dict[Atom, bool]], T.Any], ref: T.Callable[[T.Any], T.Any],
-            got: T.Callable[[tables.Row], T.Any], extra: T.Iterable[Atom] = (), what: str = 'reference') -> bool:
+            got: T.Callable[[tables.Row], T.Any], extra: T.Iterable[Atom] = (), what: str = 'reference',
+            independent: T.Optional[T.Callable[[Atom], bool]] = None) -> bool:
     """Compare a table with a reference denotation on every world of its atoms.
 
     Atoms outside the vocabulary are enumerated as free booleans; a disagreement in a row that tests such an
-    atom is *undecided* (the world may be infeasible), every other disagreement is a violation."""
+    atom is *undecided* (the world may be infeasible), every other disagreement is a violation.  `independent(atom)`
+    names unknown atoms the caller can prove unrelated to the vocabulary (their truth cannot exclude a world): they stay free."""
     unknown = [a for a in tab.atoms() if a not in sem and not is_free(a)]
     n = 0
     bad: T.Dict[str, T.Any] = {}
@@ -1338,7 +1397,7 @@ def compare(ctx: T.Any, mod: T.Any, qn: str, fn: ast.AST, tab: tables.Table, sem
         if g != want:
             if any(getattr(getattr(r_, 'srow', None), 'partial_try', False) for r_ in rows):
                 raise Undecided(f'{qn}: row `{rows[0]!r}` disagrees with the {what}, but the code contains try/except whose handlers were not read')
-            if any(a in rows[0].conds for a in unknown):
+            if any(a in rows[0].conds and not (independent is not None and independent(a)) for a in unknown):
                 raise Undecided(f'{qn}: row `{rows[0]!r}` disagrees with the {what} but tests atoms outside the vocabulary: {unknown}')
             bad.setdefault(repr(rows[0]), (rows[0], g, want, {sem.get(a, repr(a)): x for a, x in w.items() if a in rows[0].conds}))
     for key, (row, g, want, vw) in bad.items():
@@ -1352,6 +1411,141 @@ def compare(ctx: T.Any, mod: T.Any, qn: str, fn: ast.AST, tab: tables.Table, sem
         ctx.note(f'{qn}: atoms outside the vocabulary treated as free: {unknown}')
     ctx.note(f'{qn}: table {tab.dump()}')
     return not bad
+
+
+# ---------------------------------------------------------------------------
+# loop form (catalogue D3 + D9 loop fission): a function that builds its results with comprehensions over one source
+# reads as the same function written with explicit loops
+_MUTATORS = {'pop', 'update', 'clear', 'setdefault', 'popitem', 'append', 'extend', 'insert', 'remove', 'add', 'discard', 'sort', 'reverse', 'appendleft', 'popleft'}
+
+
+def _touches(stmts: T.Iterable[ast.AST], names: T.Set[str]) -> bool:
+    """some statement re-binds one of the names or changes the object it denotes"""
+    for st in stmts:
+        for n in ast.walk(st):
+            if isinstance(n, ast.Name) and n.id in names and isinstance(n.ctx, (ast.Store, ast.Del)):
+                return True
+            if isinstance(n, (ast.Subscript, ast.Attribute)) and isinstance(n.ctx, (ast.Store, ast.Del)) and isinstance(n.value, ast.Name) and n.value.id in names:
+                return True
+            if isinstance(n, ast.Call) and isinstance(n.func, ast.Attribute) and n.func.attr in _MUTATORS and isinstance(n.func.value, ast.Name) and n.func.value.id in names:
+                return True
+    return False
+
+
+def _simple_target(st: ast.stmt) -> T.Optional[T.Tuple[str, ast.expr]]:
+    if isinstance(st, ast.Assign) and len(st.targets) == 1 and isinstance(st.targets[0], ast.Name):
+        return st.targets[0].id, st.value
+    if isinstance(st, ast.AnnAssign) and isinstance(st.target, ast.Name) and st.value is not None:
+        return st.target.id, st.value
+    return None
+
+
+def _list_comp(v: ast.AST) -> T.Optional[T.Any]:
+    if isinstance(v, ast.Call) and isinstance(v.func, ast.Name) and v.func.id in ('list', 'tuple') and len(v.args) == 1 and not v.keywords:
+        v = v.args[0]
+        if not isinstance(v, (ast.GeneratorExp, ast.ListComp)):
+            return None
+    elif not isinstance(v, ast.ListComp):
+        return None
+    return v if len(v.generators) == 1 and not v.generators[0].is_async else None
+
+
+def _last_or_default(v: ast.AST, x: str) -> T.Optional[ast.expr]:
+    """D for `x[-1] if x else D` / `D if not x else x[-1]`: the last element of the list x, D when it is empty"""
+    if not isinstance(v, ast.IfExp):
+        return None
+    t, a, b = v.test, v.body, v.orelse
+    if isinstance(t, ast.UnaryOp) and isinstance(t.op, ast.Not):
+        t, a, b = t.operand, b, a
+    t = _norm_test(t)
+    if not (isinstance(t, ast.Name) and t.id == x):
+        return None
+    if isinstance(a, ast.Subscript) and isinstance(a.value, ast.Name) and a.value.id == x and norm(a.slice) == '-1' and not _mentions(b, x):
+        return b
+    return None
+
+
+def _assign(name: str, value: ast.expr, at: ast.AST) -> ast.stmt:
+    st = ast.Assign(targets=[ast.Name(id=name, ctx=ast.Store())], value=value, type_comment=None)
+    ast.copy_location(st, at)
+    ast.fix_missing_locations(st)
+    return st
+
+
+def _fresh_gen(comp: T.Any, extra: T.Sequence[ast.expr]) -> T.Tuple[ast.comprehension, T.List[ast.expr]]:
+    """the generator of a comprehension with its bound names renamed apart, and `extra` expressions of its scope renamed alike"""
+    gen = comp.generators[0]
+    _UNIQ[0] += 1
+    rn = _Rename(_bound_names(gen.target), f'__c{_UNIQ[0]}')
+    g2 = ast.comprehension(target=rn.visit(copy.deepcopy(gen.target)), iter=copy.deepcopy(gen.iter), ifs=[rn.visit(copy.deepcopy(c)) for c in gen.ifs], is_async=0)
+    return g2, [rn.visit(copy.deepcopy(e)) for e in extra]
+
+
+def _loopify(body: T.List[ast.stmt], nstores: T.Dict[str, int]) -> T.List[ast.stmt]:
+    body = list(body)
+    # 1. deforestation: `xs = [E for t in SRC if P]` whose only readers are `for y in xs: BODY` and `v = xs[-1] if xs else D`
+    #    ->  `for t in SRC: if P: y = E; BODY`   and   `v = D; for t in SRC: if P: v = E`      (xs, SRC and what P / E read untouched in between)
+    i = 0
+    while i < len(body):
+        tv = _simple_target(body[i])
+        comp = _list_comp(tv[1]) if tv else None
+        if tv is None or comp is None or nstores.get(tv[0]) != 1:
+            i += 1
+            continue
+        x = tv[0]
+        free = {n.id for n in ast.walk(comp) if isinstance(n, ast.Name)} - _bound_names(comp.generators[0].target)
+        repl: T.Dict[int, T.List[ast.stmt]] = {}
+        ok = x not in free
+        last = i
+        for j in range(i + 1, len(body)):
+            st = body[j]
+            if not _mentions(st, x):
+                continue
+            last = j
+            tj = _simple_target(st)
+            if isinstance(st, ast.For) and not st.orelse and isinstance(st.iter, ast.Name) and st.iter.id == x and isinstance(st.target, ast.Name) \
+                    and not any(_mentions(b, x) for b in st.body) and not _touches(st.body, free):
+                g2, (elt,) = _fresh_gen(comp, [comp.elt])
+                repl[j] = [_loop_of(g2, [_assign(st.target.id, elt, st)] + st.body, st)]
+            elif tj is not None and _last_or_default(tj[1], x) is not None:
+                g2, (elt,) = _fresh_gen(comp, [comp.elt])
+                repl[j] = [_assign(tj[0], T.cast(ast.expr, _last_or_default(tj[1], x)), st), _loop_of(g2, [_assign(tj[0], elt, st)], st)]
+            else:
+                ok = False
+                break
+        if not ok or not repl or _touches(body[i + 1:last], free | {x}):
+            i += 1
+            continue
+        body = body[:i] + [s_ for j in range(i + 1, len(body)) for s_ in repl.get(j, [body[j]])]
+    # 2. `d = {K: V for t in SRC if P}`  ->  `d = {}; for t in SRC: if P: d[K] = V`
+    out: T.List[ast.stmt] = []
+    for st in body:
+        tv = _simple_target(st)
+        if tv is not None and isinstance(tv[1], ast.DictComp) and len(tv[1].generators) == 1 and not tv[1].generators[0].is_async:
+            g2, (k, v) = _fresh_gen(tv[1], [tv[1].key, tv[1].value])
+            store = ast.Assign(targets=[ast.Subscript(value=ast.Name(id=tv[0], ctx=ast.Load()), slice=k, ctx=ast.Store())], value=v, type_comment=None)
+            out.append(_assign(tv[0], ast.Dict(keys=[], values=[]), st))
+            out.append(_loop_of(g2, [store], st))
+        else:
+            out.append(st)
+    return out
+
+
+def loop_form(fn: T.Any) -> T.Any:
+    """A copy of the function whose top level is in loop form; helpers are inlined as for the original (same owner)."""
+    nstores: T.Dict[str, int] = {}
+    for n in ast.walk(fn):
+        if isinstance(n, ast.Name) and isinstance(n.ctx, (ast.Store, ast.Del)):
+            nstores[n.id] = nstores.get(n.id, 0) + 1
+    body = _loopify([copy.deepcopy(s_) for s_ in fn.body], nstores)
+    if len(body) == len(fn.body) and all(norm(a) == norm(b) for a, b in zip(body, fn.body)):
+        return fn
+    fn2 = copy.copy(fn)
+    fn2.body = body
+    if id(fn) in _OWNER:
+        _OWNER[id(fn2)] = _OWNER[id(fn)]
+        _KEEP.append(fn2)
+    return fn2
 
 
 # ---------------------------------------------------------------------------
